@@ -36,6 +36,10 @@ OUT = os.path.abspath(os.environ.get('VERIF_OUT_DIR') or VERIF)
 # --------------------------------------------------------------------------------------------------
 # verdicts
 
+# the interpreter strips `assert` statements under -O / PYTHONOPTIMIZE: every property is checked in that mode too (run_optimized_child)
+OPTIMIZED = bool(sys.flags.optimize)
+
+
 class Fail:
     """A failed oracle clause. `signature` names the clause and input class (root-cause bucket)."""
     __slots__ = ('signature', 'detail', 'replay')
@@ -353,6 +357,84 @@ def look(obj, cap=3000):
             pass
 
 
+def run_overlapping(check, cases, threads=3, rounds=2):
+    """Runs check(case) for every case in `threads` threads AT THE SAME TIME (each thread walks the case list from another start,
+    `rounds` times, behind a common barrier, with the interpreter's switch interval at its minimum so that calls interleave every
+    few byte codes). The oracle is the sequential one: the same cases are checked one after the other first; if they pass there
+    and a clause fails only when calls overlap in time, the library keeps per-call state in a place two calls share (a module- or
+    class-level scratch object that is merely reset at the start of each call). Returns None or a Fail('two-threads/...').
+    The schedule is the interpreter's, not ours: a failure found here need not reproduce on every replay - the replay runs the
+    same overlapped rounds again (DESIGN 9)."""
+    import threading
+    for c in cases:
+        if check(c) is not None:
+            return None                      # fails without any overlap: reported by the sub-check the case belongs to
+    found = []
+    crashed = []
+    barrier = threading.Barrier(threads)
+
+    def body(t):
+        try:
+            barrier.wait(timeout=60)
+            for r in range(rounds):
+                for i in range(len(cases)):
+                    if found or crashed:
+                        return
+                    c = cases[(i + t) % len(cases)]
+                    try:
+                        res = check(c)
+                    except Exception as e:
+                        fr = lib_frame(e)
+                        if fr is None:
+                            crashed.append(''.join(traceback.format_exception(e))[-2000:])
+                            return
+                        res = Fail(f'unexpected-exception/{type(e).__name__}@{fr}', ''.join(traceback.format_exception(e))[-1200:])
+                    if res is not None:
+                        found.append((res, (i + t) % len(cases)))
+        except threading.BrokenBarrierError:
+            crashed.append('barrier broken')
+
+    old = sys.getswitchinterval()
+    sys.setswitchinterval(1e-6)
+    try:
+        ths = [threading.Thread(target=body, args=(t,), daemon=True) for t in range(threads)]
+        for th in ths:
+            th.start()
+        for th in ths:
+            th.join()
+    finally:
+        sys.setswitchinterval(old)
+    if found:
+        res, i = found[0]
+        return Fail('two-threads/' + res.signature, f'case {i} of {len(cases)} passes when the calls are made one after the other and '
+                    f'fails when {threads} threads make them at the same time: {res.detail}'[:1800])
+    if crashed:
+        raise HarnessError('exception in harness code inside a thread: ' + crashed[0])
+    return None
+
+
+def overlapped(base, name='two-threads', k=3, threads=3, rounds=2, n=(90, 2000), shards=(8, 16), tiers=('quick', 'thorough')):
+    """a sub-check that runs the generated cases of `base` (a Hypothesis sub-check) k at a time in overlapping threads"""
+    from hypothesis import strategies as st
+
+    def strategy(tier):
+        return st.lists(base.strategy(tier), min_size=k, max_size=k).map(lambda cs: {'cases': cs})
+
+    def check(case):
+        return run_overlapping(base.check, case['cases'], threads, rounds)
+
+    def classify(case):
+        yield f'overlapping:{base.name}'
+        if base.classify:
+            for c in case['cases']:
+                yield from base.classify(c)
+
+    return Sub(name, check, strategy=strategy, classify=classify, nontrivial=lambda case: True, n=n, shards=shards,
+               case_cpu_s=max(60.0, base.case_cpu_s * 3 * k), tiers=tiers,
+               note=f'cases of {base.name}, {k} at a time, checked by {threads} threads at the same time (switch interval 1 us); '
+                    f'oracle = the same cases checked one after the other')
+
+
 def _shard_worker(args):
     prop_id, sub_name, shard, nshards, tier, seed, shrink_s = args
     import importlib
@@ -567,6 +649,9 @@ def run_property(prop_id, tier, seed, only=None):
 
     # 3. report
     wall = time.time() - t0
+    if OPTIMIZED:
+        for f in failures:
+            f['signature'] = 'python-O/' + f['signature']
     # one replay per distinct signature
     seen = {}
     for f in failures:
@@ -581,7 +666,8 @@ def run_property(prop_id, tier, seed, only=None):
         path = os.path.join(OUT, 'replays', f'{prop_id}-{f["sub"]}-{h}.json')
         with open(path, 'w') as fh:
             json.dump({'property': prop_id, 'subcheck': f['sub'], 'signature': sig, 'detail': f['detail'],
-                       'seed': seed, 'tier': tier, 'case': f['case']}, fh, indent=1, default=_json_default)
+                       'seed': seed, 'tier': tier, 'mode': 'O' if OPTIMIZED else 'normal', 'case': f['case']},
+                      fh, indent=1, default=_json_default)
         replay_paths.append((sig, path, f))
 
     known_hits = {}
@@ -599,7 +685,7 @@ def run_property(prop_id, tier, seed, only=None):
         print('  detail: ' + f['detail'][:600].replace('\n', '\n          '))
     tot = sum(s.evaluations for s in agg.values())
     nt = sum(len(s.nontrivial) for s in agg.values())
-    print(f'{prop_id} tier={tier} seed={seed}: {tot} cases, {nt} distinct non-trivial, '
+    print(f'{prop_id}{" [python -O]" if OPTIMIZED else ""} tier={tier} seed={seed}: {tot} cases, {nt} distinct non-trivial, '
           f'{len(seen)} violation signature(s), {sum(known_hits.values())} known-finding hits, {wall:.1f}s')
     for p in problems:
         print('HARNESS-PROBLEM: ' + p.replace('\n', '\n   '), file=sys.stderr)
@@ -655,6 +741,8 @@ def replay(prop_id, path):
     mod = importlib.import_module(f'harness.props.{prop_id.lower()}')
     with open(path) as f:
         r = json.load(f)
+    if r.get('mode') == 'O' and not OPTIMIZED:
+        os.execv(sys.executable, [sys.executable, '-O', os.path.join(VERIF, 'run.py'), prop_id, '--replay', path])
     sub = {s.name: s for s in mod.SUBCHECKS}[r['subcheck']]
     known = load_known(prop_id)
     try:
@@ -662,6 +750,8 @@ def replay(prop_id, path):
     except CaseTimeout:
         print('case exceeded the CPU ceiling: inconclusive')
         return 2
+    if res is not None and OPTIMIZED:
+        res.signature = 'python-O/' + res.signature
     if res is None:
         print(f'replay {path}: property holds on this case')
         return 0
@@ -671,3 +761,45 @@ def replay(prop_id, path):
     print(f'VIOLATION property={prop_id} replay={path}')
     print(f'  signature={res.signature}\n  detail: {res.detail}')
     return 1
+
+
+def run_optimized_child(prop_id, tier, seed):
+    """Second pass of a property's check in a child interpreter started with -O (asserts stripped; __debug__ False): the library
+    must satisfy the property in that mode as well. Quick-tier sizes with multiplier 1; the child writes its replays under
+    <out>/optimized-mode/replays (they re-run under -O), prints its own VIOLATION lines, and its counts are merged into the
+    evidence file of the main pass. Returns the child's exit code (0 / 1 / 2)."""
+    import shutil
+    import subprocess
+    out = os.path.join(OUT, 'optimized-mode')
+    env = dict(os.environ, VERIF_OUT_DIR=out, VERIF_QUICK_MULT=os.environ.get('VERIF_OPT_MULT', '1'), VERIF_SEED=str(seed))
+    env.pop('PYTHONOPTIMIZE', None)
+    sys.stdout.flush()
+    t0 = time.time()
+    try:
+        p = subprocess.run([sys.executable, '-O', os.path.join(VERIF, 'run.py'), prop_id, '--tier', 'quick'], env=env,
+                           timeout=float(os.environ.get('VERIF_HARD_TIMEOUT_S', '1800')))
+        rc = p.returncode
+    except subprocess.TimeoutExpired:
+        print('HARNESS-PROBLEM: python -O pass timed out: inconclusive', file=sys.stderr)
+        rc = 2
+    evp = os.path.join(OUT, 'evidence', f'{prop_id}.json')
+    cvp = os.path.join(out, 'evidence', f'{prop_id}.json')
+    try:
+        with open(evp) as f:
+            ev = json.load(f)
+        with open(cvp) as f:
+            cv = json.load(f)
+        ev['coverage']['python_O_pass'] = {
+            'what': 'the same sub-checks run once more in a child interpreter started with -O (assert statements stripped), '
+                    'quick sizes with multiplier 1; violations found there are reported as python-O/<signature>',
+            'evaluations': cv['coverage']['evaluations'], 'distinct_nontrivial': cv['coverage']['distinct_nontrivial'],
+            'violations': cv['violations'], 'exit': rc, 'wall_s': round(time.time() - t0, 2)}
+        ev['violations'] = ev.get('violations', 0) + cv.get('violations', 0)
+        ev['wall_s'] = round(ev.get('wall_s', 0) + (time.time() - t0), 2)
+        with open(evp, 'w') as f:
+            json.dump(ev, f, indent=1, default=_json_default)
+    except Exception as e:
+        print(f'HARNESS-PROBLEM: could not merge the python -O pass into the evidence: {e!r}', file=sys.stderr)
+        rc = rc or 2
+    shutil.rmtree(os.path.join(out, 'evidence'), ignore_errors=True)
+    return rc
